@@ -16,6 +16,9 @@ def compare_async_compiled(spec, arec, crec, eps):
     diffs, rows = [], 0
     for n in crec:
         c, a = crec[n], arec[n]
+        for which, r_ in (("compiled", c), ("async", a)):
+            for d in r_.get("payload_corrupt", [])[:1]:
+                diffs.append(f"node {n} ({which} record): {d}: the window entry is not one message")
         for i, s in enumerate(c["seq"]):
             if s < 0:
                 continue
